@@ -246,7 +246,7 @@ func initDirs(thorough bool) (small, big []initDir) {
 	mk := func(name string, nums ...int) initDir {
 		d := initDir{name, map[string]string{"audit.log": "live-a\nlive-b\n"}}
 		for _, n := range nums {
-			k := n % 3
+			k := n%3 + 1
 			var b strings.Builder
 			for i := 0; i < k; i++ {
 				fmt.Fprintf(&b, "r%d-%d\n", n, i)
@@ -269,6 +269,16 @@ func initDirs(thorough bool) (small, big []initDir) {
 		big = append(big, mk(fmt.Sprintf("%d-rotated", n), seq(n)...))
 	}
 	big = append(big, mk("sparse-1,2,10,100,999", 1, 2, 10, 100, 999), mk("sparse-9,10,11", 9, 10, 11), mk("sparse-2,20,200", 2, 20, 200))
+	// every pair of rotation numbers around digit-count and bit-width boundaries
+	edge := []int{1, 2, 9, 10, 11, 99, 100, 101, 127, 128, 255, 256, 257, 300, 999}
+	for i := 0; i < len(edge); i++ {
+		for j := i + 1; j < len(edge); j++ {
+			if thorough || (i+j)%2 == 0 {
+				big = append(big, mk(fmt.Sprintf("pair-%d,%d", edge[i], edge[j]), edge[i], edge[j]))
+			}
+		}
+	}
+	big = append(big, mk("edges-all", edge...))
 	big = append(big, initDir{"unrelated-files", map[string]string{"audit.log": "live\n", "audit.log.1": "one\n", "other.log": "nope\n", "audit.log.bak": "", "audit.log.1.gz": ""}})
 	return small, big
 }
@@ -485,7 +495,11 @@ func runC20(t *testing.T, run *mc.Run) int {
 		rec(nil)
 	}
 	for _, d := range big {
-		for _, seq := range [][]opKind{nil, {opAppend2}, {opRotate, opAppend2}} {
+		seqs := [][]opKind{nil, {opAppend2}, {opRotate, opAppend2}}
+		if strings.HasPrefix(d.Name, "pair-") {
+			seqs = seqs[:1]
+		}
+		for _, seq := range seqs {
 			n++
 			if m := runCase(t, d, seq); m != "" {
 				report(d, seq, m)
